@@ -168,6 +168,7 @@ pub enum Deliver {
     Borrowed, // visit_borrowed_bytes with a slice living as long as 'de
     Buf,      // visit_byte_buf with an owned Vec
     Seq,      // visit_seq, one u8 per element
+    SeqFail,  // visit_seq whose SeqAccess fails after half of the elements (a format error in the middle of the sequence)
 }
 
 pub fn deliver(kind: &str) -> Option<Deliver> {
@@ -176,6 +177,7 @@ pub fn deliver(kind: &str) -> Option<Deliver> {
         "borrowed" => Deliver::Borrowed,
         "buf" => Deliver::Buf,
         "seq" => Deliver::Seq,
+        "seqfail" => Deliver::SeqFail,
         _ => return None,
     })
 }
@@ -202,6 +204,29 @@ impl<'de> SeqAccess<'de> for ByteSeq<'de> {
     }
 }
 
+/// a sequence that breaks off with an error after `left` elements
+struct FailSeq<'de> {
+    it: std::slice::Iter<'de, u8>,
+    left: usize,
+}
+
+impl<'de> SeqAccess<'de> for FailSeq<'de> {
+    type Error = SErr;
+    fn next_element_seed<S: DeserializeSeed<'de>>(&mut self, seed: S) -> Result<Option<S::Value>, SErr> {
+        if self.left == 0 {
+            return Err(<SErr as serde::de::Error>::custom("the sequence broke off"));
+        }
+        self.left -= 1;
+        match self.it.next() {
+            Some(&b) => seed.deserialize(IntoDeserializer::<SErr>::into_deserializer(b)).map(Some),
+            None => Err(<SErr as serde::de::Error>::custom("the sequence broke off")),
+        }
+    }
+    fn size_hint(&self) -> Option<usize> {
+        Some(self.it.len())
+    }
+}
+
 impl<'de> Deserializer<'de> for ByteDe<'de> {
     type Error = SErr;
     fn deserialize_any<V: Visitor<'de>>(self, visitor: V) -> Result<V::Value, SErr> {
@@ -213,6 +238,7 @@ impl<'de> Deserializer<'de> for ByteDe<'de> {
             Deliver::Borrowed => visitor.visit_borrowed_bytes(self.data),
             Deliver::Buf => visitor.visit_byte_buf(self.data.to_vec()),
             Deliver::Seq => visitor.visit_seq(ByteSeq { it: self.data.iter() }),
+            Deliver::SeqFail => visitor.visit_seq(FailSeq { it: self.data.iter(), left: self.data.len() / 2 }),
         }
     }
     serde::forward_to_deserialize_any! {
